@@ -90,6 +90,17 @@ ROUND 2 (seeded changes C01-r2m1, C01-r2m3 escaped; both now caught with concret
     proposed_fixes/C01-setslice-extended-size.diff, entries now status=fixed, witness kept as an oracle-only corpus case): lst[a:b:step] = items with a wrong number of items moves the
     ownership of old and new items before list.__setitem__ rejects the size.
 
+ROUND 5 (seeded C01-r5m2, C01-r5m3, C06-r5m2 escaped; now caught with concrete replays):
+  * constructor shapes with a REPEATED initializer name (random generator and rejection shape ctor-dup-init): the dict
+    built from `initializers` keeps the last value of a name, so the invalid twin (produced / owned elsewhere) is put
+    last (rejected) or first (accepted); inputs, outputs and a node ride along so a partial adoption is visible
+    -> r5m2 (validation looks at the FIRST of a repeated name) caught at GraphNew by oracle and correspondence;
+  * the executor passes iterable arguments as one-shot generators in ~35 % of the calls (Node inputs and attributes,
+    Graph nodes, Graph.extend / insert_* / remove, inputs.extend; op flag "gen", so replays are deterministic)
+    -> r5m3 (uses registered by re-enumerating the consumed `inputs` argument) caught by I1 at NewNode;
+  * gen_multi_rau: a real replacement of a consumed non-output value at position 0, then a graph OUTPUT mapped to ITSELF
+    with replace_graph_outputs=False at position k > 0 -> C06-r5m2 (identity shortcut ahead of the output checks).
+
 READINGS.  "a node names a graph exactly when that graph's node sequence contains it, once" is checked on iteration,
 len() and reversed().  I7 is read on the public `Value.graph` property (falls back to the producer's graph): a value
 in no collection and without producer reports None; a value with a flag reports a graph.  Exception types are
